@@ -6,6 +6,7 @@ import itertools
 import astwire
 
 MAX_TAB = 6   # tabulate all 3^index choices up to this index
+TIME_LIMIT_S = 25   # wall-clock limit of one real analysis inside the harness
 
 
 def wire_poly(poly):
@@ -32,10 +33,24 @@ def bound_triples(bound, variables):
 def observe_func(node, fin, rng=None, max_mats=40):
     """Run Analysis.func on an (already syntax-checked) FuncDef node."""
     from pymwp import Analysis
+    import signal
+
+    class _Timeout(BaseException):
+        pass
+
+    def _alarm(sig, frm):
+        raise _Timeout()
+    old_h = signal.signal(signal.SIGALRM, _alarm)
+    signal.alarm(TIME_LIMIT_S)
     try:
         res = Analysis.func(node, not fin)
+    except _Timeout:
+        return {'raised': 'Timeout', 'msg': f'analysis exceeded {TIME_LIMIT_S} s (not a violation: counted and skipped)'}, None
     except Exception as e:
         return {'raised': type(e).__name__, 'msg': str(e)[:200]}, None
+    finally:
+        signal.alarm(0)
+        signal.signal(signal.SIGALRM, old_h)
     obs = {
         'name': res.name, 'infinite': bool(res.infinite), 'variables': list(res.variables),
         'index': res.index, 'has_relation': res.relation is not None,
